@@ -16,8 +16,8 @@ EXTENDS Tp22Core, Mon22, Json, IOUtils
 
 Batch == JsonDeserialize(IOEnv.TRACE_FILE)
 
-VARIABLES tid, l, ns, pc, pend, dm, bm, silent, bad
-vars == <<tid, l, ns, pc, pend, dm, bm, silent, bad>>
+VARIABLES tid, l, ns, pc, pend, dm, bm, silent, tmr, bad
+vars == <<tid, l, ns, pc, pend, dm, bm, silent, tmr, bad>>
 
 Tr == Batch[tid]
 Ev == Tr.ev
@@ -33,6 +33,7 @@ Init ==
     /\ dm = DmInit22
     /\ bm = Bm22Init
     /\ silent = {}
+    /\ tmr = [n \in DOMAIN Batch[tid].cfg |-> None]     \* deadline of the one-shot probe timer of each node
     /\ bad = {}
 
 Has2(e, f) == f \in DOMAIN e
@@ -66,6 +67,13 @@ Apply(e) ==
               ELSE IF e.ret # r.ret THEN Fail("api.send_pgn return value")
               ELSE S([ns EXCEPT ![n] = r.ns], pc, [pend EXCEPT ![n] = r.out \o @],
                      IF r.ret THEN DmAccept(dm, n, a) ELSE DmRefuse(dm), bm, {})
+      [] e.ev = "api" /\ e.op = "add_timer" ->     \* one-shot probe timer: wakes the job thread
+           S([ns EXCEPT ![n].tok = @ + 1], pc, pend, dm, bm, {})
+      [] e.ev = "timer" ->                          \* its callback: never early, at most the wake latency late
+           IF tmr[n] = None THEN Fail("timer callback without a registration")
+           ELSE IF e.t < tmr[n] THEN Fail("timer fired early")
+           ELSE IF e.t > tmr[n] + WakeLat + Tr.expect.slack THEN Fail("timer fired late")
+           ELSE S(ns, pc, pend, dm, bm, {})
       [] e.ev = "tx" ->
            IF pend[n] # <<>>
            THEN IF MatchTx(Head(pend[n]), e)
@@ -84,7 +92,7 @@ Apply(e) ==
       [] e.ev = "cb" ->
            IF pend[n] # <<>> /\ MatchCb(Head(pend[n]), e)
            THEN LET d2 == DmDeliver(dm, Tr.cfg, n, Head(pend[n])) IN
-                S(ns, pc, [pend EXCEPT ![n] = Tail(@)], d2.dm, bm, d2.bad)
+                S(ns, pc, [pend EXCEPT ![n] = Tail(@)], d2.dm, bm, IF Tr.expect.dm THEN d2.bad ELSE {})
            ELSE Fail("callback differs from the delivery the specification predicts")
       [] e.ev = "rx" ->
            LET r == Notify(ns[n], Cfg(n), e.id, e.data, e.t) IN
@@ -125,8 +133,8 @@ Apply(e) ==
                      THEN IF ~pe.slept /\ r.pc.nw - e.t > 0
                           THEN S([ns EXCEPT ![n] = pe.ns], [pc EXCEPT ![n] = pe.pc], pend, dm, bm, {})
                           ELSE Fail("token consumed where the specification has none")
-                     ELSE IF pe.slept /\ pe.until = e.until
-                          THEN S([ns EXCEPT ![n] = pe.ns], [pc EXCEPT ![n] = pe.pc], pend, dm, bm, {})
+                     ELSE IF pe.slept /\ (IF tmr[n] # None /\ tmr[n] + WakeLat < pe.until THEN tmr[n] + WakeLat ELSE pe.until) = e.until
+                          THEN S([ns EXCEPT ![n] = [pe.ns EXCEPT !.su = e.until]], [pc EXCEPT ![n] = pe.pc], pend, dm, bm, {})
                           ELSE Fail("sleep time differs from the specification (lost or late wake-up)")
       [] e.ev = "abs" ->
            IF pc[n].ph # "idle" \/ pend[n] # <<>> THEN S(ns, pc, pend, dm, bm, {})   \* only compared at rest
@@ -171,6 +179,8 @@ Step ==
                  ELSE r.bad
        /\ l' = IF r.bad = {} THEN l + 1 ELSE l
     /\ silent' = IF Ev[l].ev = "silence" THEN silent \cup {Ev[l].node} ELSE silent
+    /\ tmr' = IF Ev[l].ev = "api" /\ Ev[l].op = "add_timer" THEN [tmr EXCEPT ![Ev[l].node] = Ev[l].t + Ev[l].delta]
+              ELSE IF Ev[l].ev = "timer" THEN [tmr EXCEPT ![Ev[l].node] = None] ELSE tmr
     /\ UNCHANGED tid
 
 Spec == Init /\ [][Step]_vars
